@@ -39,6 +39,27 @@ def _ip_consts():
     }
 
 
+@unit("cli_consts")
+def _cli_consts():
+    from netconan import netconan as nn
+    from netconan.ip_anonymization import IpAnonymizer
+
+    a = nn._parse_args(["-i", "x", "-o", "y"])
+    assert isinstance(a.preserve_host_bits, int) and isinstance(a.preserve_prefixes, str)
+
+    def s(x):
+        return [ord(c) for c in x]
+
+    return {
+        "CLI_DEFAULT_HOST_BITS": a.preserve_host_bits,
+        "CLI_DEFAULT_PREFIXES": s(a.preserve_prefixes),
+        "CLI_DEFAULTS_NONE": all(getattr(a, k) is None for k in ("salt", "dump_ip_map", "as_numbers", "reserved_words", "sensitive_words", "preserve_addresses")),
+        "CLI_DEFAULTS_FALSE": all(getattr(a, k) is False for k in ("anonymize_ips", "anonymize_passwords", "undo", "preserve_private_addresses")),
+        "RFC_1918_TXT": [s(x) for x in IpAnonymizer.RFC_1918_NETWORKS],
+        "DEFAULT_PREFIXES_TXT": [s(x) for x in IpAnonymizer.DEFAULT_PRESERVED_PREFIXES],
+    }
+
+
 @unit("as_num")
 def _as_num():
     from netconan.sensitive_item_removal import AsNumberAnonymizer
